@@ -28,7 +28,8 @@ Tokens == <<
   P(<<"r">>), P(<<"PLUS", "r", "1">>),                                                  \* {r} {+r1}
   P(<<"q", "COLON", "1">>), P(<<"q", "COLON", "s", "2", "DOT", "DOT">>),                \* {q:1} {q:s2..}
   <<"BSL">> \o P(<<"PLUS", "f">>),                                                      \* \{+f}
-  P(<<"0">>), P(<<"PLUS", "s", "1", "DOT">>)                                            \* {0} {+s1.}: not ranges
+  P(<<"0">>), P(<<"PLUS", "s", "1", "DOT">>),                                           \* {0} {+s1.}: not ranges
+  P(<<"PLUS", "q">>), P(<<"s", "n">>)                                                   \* {+q} {sn}: not placeholders
 >>
 
 VARIABLES tmpl, ntok, world, cur, sel, query, fp
